@@ -229,6 +229,20 @@ def publish_scenarios():
         out.append(("variable-key-after-the-host-injected-the-key-name-" + nm, bk, [inj(), inj_func("Publish")], {"class": "ok", "ret": want}))
     bw = block([assign(("var", "k"), "=", ("math", mint(1))), fcall("Publish"), assign(("map", mapvar("mp", ("var", "k"))), "+=", ("math", mint(1)))], rdk("mp"))
     out.append(("compound-assignment-through-a-variable-key-after-the-host-injected-the-key-name", bw, [mpk(), inj_func("Publish")], {"class": "ok", "ret": 21}))
+    # a call whose ARGUMENT failed to evaluate (in an earlier rule of the same call, which goes on), then nested calls: every
+    # call receives the values of ITS argument expressions, whatever became of earlier argument lists (the call as a whole reports
+    # the earlier rules' errors: class error; the rule under observation returns its value all the same)
+    bad_arg = ("var", "nope")
+    fails = {"function": scall(call("func", "IdI64", [bad_arg])), "method": scall(call("method", "h.Id64", [bad_arg])), "three-level": scall(call("three", "h.PSub.GetN", [bad_arg])),
+             "inner-function": scall(call("func", "IdI64", [("call", call("func", "IdI64", [bad_arg]))]))}
+    for kind, st in fails.items():
+        pre = [("p0", None, 50, block([st])), ("p1", None, 40, block([st, st]))]
+        bn = block([], ("expr", emath(matom(acall(call("func", "Mix3", [("const", kint(7)), ("const", kstr("s")), ("call", call("func", "IdI32", [("const", kint(9))]))]))))))
+        out.append(("nested-call-after-a-failed-argument-evaluation-in-a-%s-call" % kind, bn, [inj_func("Mix3"), inj_func("IdI32"), inj_func("IdI64"), inj_struct("h")],
+                    {"class": "error", "ret": 9, "seq": [["IdI32", "9"], ["Mix3", "7", "s", "9"]]}, pre))
+        bm = block([scall(call("method", "h.Mark", [("call", call("func", "Two", [("call", call("func", "IdI64", [("const", kint(4))])), ("call", call("func", "IdF64", [("const", kreal("2.5"))]))]))]))])
+        out.append(("nested-calls-in-a-method-argument-after-a-failed-argument-evaluation-in-a-%s-call" % kind, bm, [inj_func("Two"), inj_func("IdF64"), inj_func("IdI64"), inj_struct("h")],
+                    {"class": "error", "seq": [["IdI64", "4"], ["IdF64", ""], ["Two", "4", ""], ["Mark", "4"]]}, pre))
     b3 = block([assign(("var", "acc"), "=", ("math", matom(acall(call("func", "NewC", []))))), scall(call("method", "acc.Add", [("const", kint(1))])), scall(call("three", "acc.In.Add", [("const", kint(2))]))])
     out.append(("calls-on-a-local-object", b3, [inj_func("NewC")], {"class": "ok", "seq": [["NewC"], ["CAdd", "1", "1"], ["CAdd", "11", "2"]]}))
     return out
@@ -242,7 +256,7 @@ def stated(run):
 def main(run):
     return lang_check(run, PID, make_cases, RULE,
                       ["float -> integer and float64 -> float32 conversions are compared only for representable values (the property's guard); string targets receiving non-strings are outside the model"], nontrivial,
-                      extra=("stated_C03: calls through a name the host injects while the rule runs reach the injected object (driver-stated expectation on the recorded calls)", stated))
+                      extra=("stated_C03: calls through a name the host injects while the rule runs reach the injected object; nested calls after an argument list that failed to evaluate receive their own arguments (driver-stated expectations on the recorded calls)", stated))
 
 
 def replay(run, data):
